@@ -91,6 +91,20 @@ def anchors(a: Anchors):
         return False
     a.fact("candidates_rotation_major", AB, "RotationImplemented._get_template_and_mask_input",
            "for mat in matrices: for tmp in inputs_templates", nesting)
+    # which rotation's mask does candidate i get?  (masks appended inside the rotation loop, one per template -> i // T;
+    # one per rotation and then repeated as a block -> i mod K)
+    def mask_layout(fn, src):
+        t = norm(ast.unparse(fn))
+        if "formatinmatrices:fortmpininputs_templates:pool_template.add_task(" in t and "pool_mask.add_tasks(ntmp,self._mask,mat," in t \
+                and t.index("formatinmatrices:fortmpininputs_templates:") < t.index("pool_mask.add_tasks(ntmp,self._mask,mat,") \
+                and "mask_input=xp.stack(_masks,axis=0)" in t and t.count("pool_mask.add_task") == 2:
+            return "Definition mask_rot_index (i T K : Z) : Z := (i / T)%Z."
+        raise Untranslatable("mask construction of the rotation branch not recognised")
+    a.raw("mask_rot_index", AB, "RotationImplemented._get_template_and_mask_input", "rotation whose mask candidate i is scored under", mask_layout)
+    a.fact("multiple_pairs_template_with_mask", AB, "BaseAlignmentModel._optimize_multiple", "for template, mask in zip(template_list, mask_list): pre_transform(subvolume * mask)",
+           lambda fn: (lambda t: "fortemplate,maskinzip(template_list,mask_list):" in t and "self.pre_transform(subvolume*mask,backend)" in t)(norm(ast.unparse(fn))))
+    a.fact("landscape_pairs_template_with_mask", AB, "BaseAlignmentModel._landscape_multiple", "same pairing in the landscape",
+           lambda fn: (lambda t: "fortemplate,maskinzip(template_list,mask_list):" in t and "self.pre_transform(subvolume*mask,backend)" in t)(norm(ast.unparse(fn))))
     a.fact("optimize_multiple_uses_argmax", AB, "BaseAlignmentModel._optimize_multiple", "iopt = int(np.argmax(all_score))",
            lambda fn: any(isinstance(n, ast.Assign) and ast.unparse(n.targets[0]) == "iopt"
                           and ast.unparse(n.value) == "int(np.argmax(all_score))" for n in ast.walk(fn))
